@@ -28,10 +28,19 @@
      SetupInTry          FALSE = web._run_app awaits runner.setup() before its try/finally
      UnfrozenCleansSubs  FALSE = Application.cleanup()'s unfrozen branch exits only the root's contexts
      CleanupCollects     FALSE = on_cleanup.send stops at the first receiver that raises
-     ShutdownContained   FALSE = an exception from on_shutdown leaves BaseRunner.cleanup() at once   *)
+     ShutdownContained   FALSE = an exception from on_shutdown leaves BaseRunner.cleanup() at once
+     RunAppCatchesBase   FALSE = web._run_app calls runner.cleanup() after a failed setup() only for
+                         Exception subclasses (`except Exception:` instead of try/finally)
+
+   Kinds of failure (chosen in Init): startKind / cleanKind = "exc" (an Exception subclass) or "base"
+   (a BaseException that is not an Exception: asyncio.CancelledError raised by the step itself, the
+   main task cancelled / GracefulExit arriving while the step is suspended inside its start-up code,
+   or the step raising a SystemExit subclass - the driver realises "base" in these three ways).
+   Every catch site of the modelled code (`except (Exception, CancelledError)`, try/finally) treats
+   both kinds alike; the only place where the kind matters is the entry point's guard around setup(). *)
 EXTENDS Naturals, Sequences, FiniteSets, TLC
 
-CONSTANTS SetupInTry, UnfrozenCleansSubs, CleanupCollects, ShutdownContained,
+CONSTANTS SetupInTry, UnfrozenCleansSubs, CleanupCollects, ShutdownContained, RunAppCatchesBase,
           MaxStartFaults, Entries
 
 VARIABLE s
@@ -57,8 +66,10 @@ Count(q, x) == Cardinality({i \in 1..Len(q) : q[i] = x})
 (* ------------------------------------------------------------------------------ *)
 Frame(k, sig, app, i) == [k |-> k, sig |-> sig, app |-> app, i |-> i, errs |-> 0]
 
-InitState(e, fs, sf, fh, fc) ==
+Kinds == {"exc", "base"}
+InitState(e, fs, sf, fh, fc, sk, ck) ==
     [entry |-> e, failStart |-> fs, siteFails |-> sf, failShut |-> fh, failClean |-> fc,
+     startKind |-> sk, cleanKind |-> ck,
      stack |-> <<>>, raising |-> FALSE,
      exits |-> [a \in Apps |-> <<>>],                      \* CleanupContext._exits
      frozen |-> [a \in Apps |-> a # Root],                \* on_cleanup.frozen (add_subapp pre-freezes the sub-app)
@@ -71,11 +82,15 @@ InitState(e, fs, sf, fh, fc) ==
 
 Init ==
     \E e \in Entries, fs \in SUBSET StartSteps, sf \in BOOLEAN,
-       fh \in SUBSET ShutSteps, fc \in SUBSET CleanSteps :
+       fh \in SUBSET ShutSteps, fc \in SUBSET CleanSteps, sk \in Kinds, ck \in Kinds :
         /\ Cardinality(fs) <= MaxStartFaults
+        \* the kind only matters when something fails; the two "base" kinds are not crossed
+        /\ fs = {} => sk = "exc"
+        /\ (fh \cup fc) = {} => ck = "exc"
+        /\ sk = "base" => ck = "exc"
         \* after a failed start-up there is no server: no site is started, on_shutdown is not sent
         /\ fs # {} => (~sf /\ fh = {})
-        /\ s = InitState(e, fs, sf, fh, fc)
+        /\ s = InitState(e, fs, sf, fh, fc, sk, ck)
 
 (* ------------------------------------------------------------------------------ *)
 Top(st) == st.stack[Len(st.stack)]
@@ -200,7 +215,8 @@ Driver(st) ==
                   [] st.entry = "RunnerNoExplicitCleanup" ->       \* setup(); try: ... finally: cleanup()
                        [st1 EXCEPT !.top = "done", !.raising = FALSE, !.result = "raised"]
                   [] st.entry = "RunApp" ->
-                       IF SetupInTry THEN CallCleanup(st1)
+                       \* try: setup() ... finally: cleanup()   /   try: setup() except Exception: cleanup(); raise
+                       IF SetupInTry /\ (RunAppCatchesBase \/ st.startKind = "exc") THEN CallCleanup(st1)
                        ELSE [st1 EXCEPT !.top = "done", !.raising = FALSE, !.result = "raised"]
            ELSE [st EXCEPT !.setupRes = "ok", !.log = Append(@, Ev("setup", "ok")), !.top = "site"]
       [] st.top = "site" ->   \* site.start(): registers with the runner, then binds; afterwards
@@ -271,9 +287,10 @@ ReverseOrder ==
 
 StartupFailed(st) == \E x \in st.failed : x[1] = "enter" \/ (x[1] = "call" /\ x[2] \in {"Rsu", "Ssu"})
 TeardownFailed(st) == \E x \in st.failed : x[1] = "exit" \/ (x[1] = "call" /\ x[2] \notin {"Rsu", "Ssu"})
+\* (stated for ordinary exceptions: a cancellation / exit request is not an error to report)
 ErrorsSurface ==
-    Finished(s) => /\ StartupFailed(s) => s.setupRes = "raised" /\ s.result = "raised"
-                   /\ TeardownFailed(s) => s.cleanupRes = "raised" /\ s.result = "raised"
+    Finished(s) => /\ (StartupFailed(s) /\ s.startKind = "exc") => s.setupRes = "raised" /\ s.result = "raised"
+                   /\ (TeardownFailed(s) /\ s.cleanKind = "exc") => s.cleanupRes = "raised" /\ s.result = "raised"
 
 (* The four ways in which the code as it is misses the property; each is the observable
    shape of one deviation constant.  AsCodedExplained: nothing else goes wrong.            *)
